@@ -473,6 +473,7 @@ type Clause struct {
 	Loop  int      // loop ordinal for invariant / decreases (1-based); 0 = function
 	E     *Expr
 	Mods  []*Expr // modifies lvalues
+	Names []string // restores: ghost field names
 	Pos   string
 	Src   string
 }
@@ -701,7 +702,7 @@ func (ss *SpecSet) loadFile(path string) error {
 	var cur *Contract
 	for _, lp := range lines {
 		line, pos := lp[0], lp[1]
-		for _, kw := range []string{"requires", "ensures", "modifies", "decreases", "axiom"} {
+		for _, kw := range []string{"requires", "ensures", "modifies", "decreases", "axiom", "restores"} {
 			if strings.HasPrefix(line, kw+"[") {
 				line = kw + " " + line[len(kw):]
 			}
@@ -862,6 +863,17 @@ func (ss *SpecSet) loadFile(path string) error {
 				return err
 			}
 			cur.Clauses = append(cur.Clauses, &Clause{Kind: f[0], Tag: tag, Props: props, E: e, Pos: pos, Src: r})
+		case "restores":
+			// restores GHOSTFIELD, ... : on return these whole heaps equal their entry value
+			if cur == nil {
+				return fmt.Errorf("%s: clause outside contract", pos)
+			}
+			props, tag, r := parseTag(rest(1))
+			cl := &Clause{Kind: "restores", Tag: tag, Props: props, Pos: pos, Src: r}
+			for _, part := range splitTop(r) {
+				cl.Names = append(cl.Names, strings.TrimSpace(part))
+			}
+			cur.Clauses = append(cur.Clauses, cl)
 		case "modifies":
 			if cur == nil {
 				return fmt.Errorf("%s: clause outside contract", pos)
